@@ -20,7 +20,7 @@ import (
 
 // C17: secure-tagged values never leak. Request/response TYPES are generated at run time from a grammar:
 //
-//	T ::= string | struct{ X T; Y T `coerce:"secure"`; Z string; W T `coerce:"ignore"` } | *T | []T | map[string]T | any(T)
+//	T ::= string | struct{ At time.Time; X T; Y T `coerce:"secure"`; Z string; W T `coerce:"ignore"` } | *T | []T | map[string]T | any(T)
 //
 // A shape is a string over the constructors: 's' string, 'S' struct, 'p' pointer, 'l' slice, 'm' map, 'i' interface,
 // read outside-in, e.g. "Slp s" ... the struct's X and Y subtrees both use the rest of the shape.
@@ -39,6 +39,8 @@ func typeOf(shape string) reflect.Type {
 	case 'S':
 		inner := typeOf(rest)
 		return reflect.StructOf([]reflect.StructField{
+			// a time.Time first: the scrubber leaves times alone, and must still look at the fields declared after one
+			{Name: "At", Type: timeType},
 			{Name: "X", Type: inner},
 			{Name: "Y", Type: inner, Tag: `coerce:"secure"`},
 			{Name: "Z", Type: reflect.TypeOf("")},
@@ -86,10 +88,11 @@ func valueOf(shape string, secure bool, c *canaries) reflect.Value {
 	switch shape[0] {
 	case 'S':
 		v := reflect.New(t).Elem()
-		v.Field(0).Set(valueOf(rest, secure, c))
-		v.Field(1).Set(valueOf(rest, true, c))
-		v.Field(2).SetString(c.next(secure))
-		v.Field(3).Set(valueOf(rest, secure, c))
+		v.Field(0).Set(reflect.ValueOf(time.Date(2024, 1, 2, 3, 4, 5, 0, time.UTC)))
+		v.Field(1).Set(valueOf(rest, secure, c))
+		v.Field(2).Set(valueOf(rest, true, c))
+		v.Field(3).SetString(c.next(secure))
+		v.Field(4).Set(valueOf(rest, secure, c))
 		return v
 	case 'p':
 		v := reflect.New(t.Elem())
@@ -612,7 +615,7 @@ func init() {
 	register(&PropDef{
 		ID:    "C17",
 		Level: "exploration",
-		Rule: "request/response TYPES are built at run time with reflect.StructOf/PointerTo/SliceOf/MapOf from the grammar T ::= string | struct{X T; Y T secure; Z string; W T ignore} | *T | []T | map[string]T | any(T) (an ignore-tagged container is walked like an untagged one): ALL shapes up to 3 (4) constructors deep below a top struct field, a unique canary string in every leaf " +
+		Rule: "request/response TYPES are built at run time with reflect.StructOf/PointerTo/SliceOf/MapOf from the grammar T ::= string | struct{At time.Time; X T; Y T secure; Z string; W T ignore} | *T | []T | map[string]T | any(T) (an ignore-tagged container is walked like an untagged one): ALL shapes up to 3 (4) constructors deep below a top struct field, a unique canary string in every leaf " +
 			"(secret iff some enclosing field is tagged), handed over by value and by pointer, placed as sequence-action request, check-action request, attempt response of a sequence action and of a check action; surfaces: clone.Plan/Block/Checks/Sequence/Action (keep-state, default secrets), default clone.Plan, reports.Render (every file of the returned file system); " +
 			"oracle: byte search for every secret canary (must be absent) and every plain canary (must be present in clones), canonical dump of the original plan before/after; registry: secret-looking and harmless field names x {no tag, secure, ignore} x nesting through structs and pointers up to depth 3 x request/response x value/pointer/zero prototype, each followed on the same registry by the same plugin again, by another plugin containing the same struct type and (fresh registry) preceded by an unrelated refusal; secret-looking fields promoted from embedded structs (unexported type, pointer, exported type, below a struct field, tagged, harmless); " +
 			"distinct_nontrivial = cases other than the flat string type",
